@@ -16,6 +16,7 @@ assert len(SIG_ALPHABET) == 35 and len(set(SIG_ALPHABET)) == 35
 # characters of the alphabet that the grammar also reads as an alteration-display suffix after an accidental
 DISPLAY_LIKE = set('XijZ')
 REST_SIGS = list(";(){}'X")
+UNIT_SIGS = {'yy'}     # decorations of more than one character (rests only)
 DISPLAY_SUFFIXES = ['x', 'X', 'i', 'I', 'j', 'Z', 'y', 'yy', 'Y', 'YY']
 
 LETTERS = 'abcdefg'
@@ -84,6 +85,9 @@ class Note:
         if self.rest:
             pre, post = [], []
             for s in self.sigs:
+                if len(s) > 1:           # a multi-character unit ('yy'): once, in either place, never repeated
+                    (pre if rng.random() < 0.2 else post).append(s)
+                    continue
                 reps = 1 if rng.random() > hostile * 0.4 else rng.choice([2, 3])
                 for _ in range(reps):
                     (pre if rng.random() < 0.3 else post).append(s)
@@ -187,6 +191,9 @@ def rand_rest(rng, *, hostile=0.5, allow_sigs=True) -> Note:
     sigs = ()
     if allow_sigs and rng.random() < 0.3:
         sigs = tuple(sorted(rng.sample(REST_SIGS, rng.randint(1, 2))))
+    if allow_sigs and rng.random() < 0.12:
+        # an invisible rest (ryy): 'yy' is ONE decoration of two characters; written once, after the r
+        sigs = tuple(sorted(set(sigs) | {'yy'}))
     return Note(dur=dur, dots=dots, letters='r', rest=True, sigs=sigs)
 
 
